@@ -10,7 +10,7 @@ RULE = ("Bounded-exhaustive: every function body of AST size <= S (nesting <= 3,
         "generator, compiled by each present interpreter; every branch/swallow decision path (DFS over decision "
         "prefixes, <= 7 decisions); extract() and contexts_active_in_frame() at every suspension (including inside "
         "__aenter__/__aexit__) compared with the program's own shadow list of entered-not-exited managers "
-        "(identity, order, is_async, is_exiting, start_line, varname; no InspectionWarning, no Stack.error); bodies of size <= 3 (thorough 4) are run a second time with one re-entrant manager object per kind serving every with-block of the program. "
+        "(identity, order, is_async, is_exiting, start_line, varname; no InspectionWarning, no Stack.error); bodies of size <= 3 (thorough 4) are run a second time with one re-entrant manager object per kind serving every with-block of the program, again (those that can raise) with managers whose __exit__/__aexit__ raises a new exception where the default ones swallow, and (bodies of size <= 4; quick: of the size-4 ones those with an async with and a try) a third time padded with 300 constants (every constant load and long jump then carries EXTENDED_ARG). "
         "evaluations = observations; distinct_nontrivial = distinct (program, kind, interpreter) containing a with and "
         "a suspension.")
 ASSUMPTIONS = [
@@ -37,6 +37,12 @@ def legs(tier):
 
 
 KINDS = ("coro", "gen", "agen")
+
+
+def ps_size(x):
+    if isinstance(x[0], str):
+        return 1 + sum(ps_size(y) for y in x[1:] if isinstance(y, tuple))
+    return sum(ps_size(st) for st in x)
 
 
 def make_observer(withs):
@@ -126,6 +132,37 @@ def run(ctx):
                 continue
             npaths, nobs = run_program(body, kind, ctx, make_observer, ns=ps.NS_REENTRANT)
             ctx.count("reentrant_programs")
+            ctx.count("distinct_nontrivial")
+            ctx.count("paths", npaths)
+            ctx.count("evaluations", nobs)
+    # managers whose exit answers an exception by raising a new one (bodies that can raise)
+    for body in ps.programs(g3, 3 if ctx.tier == "quick" else 4, p["depth"]):
+        if not ps.has(body, ("raise",)):
+            continue
+        for kind in KINDS:
+            if not ps.kind_ok(body, kind) or not ps.nontrivial(body, kind):
+                continue
+            idx += 1
+            if not ctx.mine(idx):
+                continue
+            npaths, nobs = run_program(body, kind, ctx, make_observer, ns=ps.NS_RAISING)
+            ctx.count("raising_exit_programs")
+            ctx.count("distinct_nontrivial")
+            ctx.count("paths", npaths)
+            ctx.count("evaluations", nobs)
+    # padded variants: >= 256 constants before the first None (EXTENDED_ARG on every constant load and long jump)
+    ASYNC_WITHS = ("awith1", "awith1n", "awith2", "mixwith2", "mixwith2r")
+    for body in ps.programs(g3, 4, p["depth"]):
+        if ctx.tier == "quick" and ps_size(body) > 3 and not (ps.has(body, ("tryexc", "tryfin")) and ps.has(body, ASYNC_WITHS)):
+            continue   # quick: of the size-4 bodies only those with an async with and a try (await sequences in cold blocks)
+        for kind in KINDS:
+            if not ps.kind_ok(body, kind) or not ps.nontrivial(body, kind):
+                continue
+            idx += 1
+            if not ctx.mine(idx):
+                continue
+            npaths, nobs = run_program(body, kind, ctx, make_observer, pad=True)
+            ctx.count("padded_programs")
             ctx.count("distinct_nontrivial")
             ctx.count("paths", npaths)
             ctx.count("evaluations", nobs)
